@@ -907,7 +907,7 @@ func inputMouse(tw *trace.Writer, rng *rand.Rand, names []string, n int, st map[
 		w, h := 80, 24
 		tw.Emit(trace.Ev{"ev": "Reset"})
 		tw.Emit(trace.Ev{"ev": "Config", "term": name, "mode": "mouse", "W": w, "H": h})
-		coords := []int{-3, -1, 0, 1, 2, w - 1, w, w + 1, 99, 100, 223, 1000, 65535}
+		coords := []int{-3, -1, 0, 1, 2, w - 1, w, w + 1, 99, 100, 223, 1000, 65535, 65536, 70000, -70000, 1000000}
 		one := func(form string, btn, x, y int, fin byte, intro8 bool, vp **tcell.VerifParser) {
 			var b []byte
 			if intro8 {
